@@ -379,9 +379,10 @@ pub fn build(prop: &str, draws: &[u16], tier: Tier) -> Case {
             8 => ("mixed2", gen::sync_prog(&mut s, &SyncParams { rwlock: true, condvar: true, atomics: true, max_threads: 2, max_ops: 7 + extra, ..sp() })),
             _ => ("try-ops", gen::sync_prog(&mut s, &SyncParams { mutex: true, try_lock: true, rwlock: true, try_rw: true, channel: true, try_recv: true, max_threads: 2, max_ops: 6 + extra, ..sp() })),
         },
-        "C05" => match s.pick(10) {
+        "C05" => match s.pick(11) {
             7 => ("yield", gen::sync_prog(&mut s, &SyncParams { park: true, mutex: true, channel: true, yields: true, ordered_locks: true, max_threads: 2, max_ops: 6 + extra, joins: true, joins_inside: true, ..sp() })),
             8 => ("yield-locks", gen::sync_prog(&mut s, &SyncParams { mutex: true, rwlock: true, yields: true, conditionals: true, ordered_locks: true, max_threads: 2, max_ops: 8 + extra, joins: true, joins_inside: true, ..sp() })),
+            10 => ("cond-shapes", gen::cond_shape(&mut s)),
             9 => ("join-inside", gen::sync_prog(&mut s, &SyncParams { mutex: true, rwlock: true, condvar: true, conditionals: true, ordered_locks: true, max_threads: 3, max_ops: 7 + extra, joins: true, joins_inside: true, ..sp() })),
             6 => ("unpark-any", gen::sync_prog(&mut s, &SyncParams { park: true, mutex: true, unpark_any: true, ordered_locks: true, max_threads: 3, max_ops: 6 + extra, joins: true, ..sp() })),
             0 => ("lock-order", gen::sync_prog(&mut s, &SyncParams { mutex: true, ordered_locks: false, max_threads: 3, max_ops: 7 + extra, ..sp() })),
